@@ -152,9 +152,22 @@ def check (a : List String) (impl : String) : List String :=
     | some r, some g, some b =>
       let dp := if d == "565" then rgb565 else if d == "555" then rgb555 else rgb888
       let want := (nearestBW dp r g b).idx
-      if kvOf impl "C" ≠ some (toString want) then
+      let r1 := if kvOf impl "C" ≠ some (toString want) then
         [s!"site=color/from_rgb{d} reason=brightness got=C={(kvOf impl "C").getD "?"} want=C={want} rgb={r}.{g}.{b}"]
       else []
+      -- OctColor: a palette colour of minimal squared distance (ties free), the exact one on a match
+      let r2 := if d ≠ "888" then [] else
+        match (kvOf impl "O").bind String.toNat? with
+        | none => [s!"site=color/oct_from_rgb888 reason=no-result got=? want=palette-index rgb={r}.{g}.{b}"]
+        | some oi =>
+          match OctColor.all.find? (·.idx == oi) with
+          | none => [s!"site=color/oct_from_rgb888 reason=not-a-colour got=O={oi} want=0..7 rgb={r}.{g}.{b}"]
+          | some c =>
+            let dmin := (OctColor.all.map fun x => x.dist r g b).foldl min (c.dist r g b)
+            if c.dist r g b ≠ dmin then
+              [s!"site=color/oct_from_rgb888 reason=not-nearest got=O={oi}@{c.dist r g b} want=distance{dmin} rgb={r}.{g}.{b}"]
+            else []
+      r1 ++ r2
     | _, _, _ => []
   | _ => []
 
